@@ -296,6 +296,13 @@ func runC14(k int, rng *Rng) CaseResult {
 			r, _ := o.(*Rec)
 			return r, name
 		}
+		// reads that miss the cache (fresh handle) take another path than cache hits
+		if rng.P(0.4) {
+			w.Reopen(rng.P(0.3))
+			if w.failed() {
+				break
+			}
+		}
 		r1, n1 := read(rng.Intn(5))
 		if r1 == nil {
 			break
